@@ -92,6 +92,9 @@ known("C01", "C01-named-fragment-reused", ["frag-named-twice"], r"^diff:EXTRA (i
 known("C01", "C01-same-key-across-fragment-explicit-id", ["same-response-key-across-fragment", "explicit-id"], r"^diff:MISSING id$",
       "one composite field selected twice under one response key, once directly and once through a fragment, with `id` requested explicitly in only one of the two: the helper `id` the planner adds for the other one is registered for scrubbing at the shared path and the client's own `id` is removed (sibling selections without a fragment are merged since fix 7dafd02)",
       witness="{ n2 { id } ... { n2 { title } } }")
+known("C01", "C01-same-key-across-fragment-explicit-typename", ["same-response-key-across-fragment", "typename"], r"^diff:MISSING __typename$",
+      "same defect as C01-same-key-across-fragment-explicit-id for the other helper: an abstract-typed field selected twice under one response key, once with the client's own __typename and once through a fragment; the helper __typename added for the second one is registered for scrubbing at the shared path and removes the client's",
+      witness="{ named { __typename } ... { named { ... on N1 { calc } } } }")
 fixed("C01", "C01-same-response-key-siblings-not-merged", "7dafd02", "{ n1s { name } n1s { phone } }: the sanitizer kept the first of two sibling fields with one response key and dropped the other's selections (phone missing, no error)")
 
 # ----------------------------------------------------------------------------- C02 (same defect classes seen at the plan / sub-request level)
@@ -122,13 +125,8 @@ fixed("C04", "C04-node-shaped-fields-unrouted", "f39394f", "Mutation.archive(id:
 fixed("C01", "C01-null-entries-in-lists", "ed593f4", "a child step below a list that contains null entries ([U] with a null) failed with 'entry in result wasn't a map'")
 fixed("C09", "C09-empty-list-for-object-crash", "61c2700", "service answers an object field on a child-step path with []: index out of range at executor/result.go:241 in a worker goroutine")
 # ----------------------------------------------------------------------------- C19
-for i, sg in enumerate([r"^file bytes changed on the way$", r"^diff:VALUE at <field>$", r"^service that uses the file variable did not receive the file at its path$", r"^diff:NULL "]):
-    known("C19", "C19-one-file-two-paths-%d" % i, ["one-file-two-paths"], sg,
-      "one uploaded file mapped to two variable paths is one reader object injected twice (requests/request.go:89-98); the first multipart re-encoding consumes it, the second position receives an empty file",
-      witness='map {"0":["variables.l.0","variables.l.1"]}')
-    known("C19", "C19-variable-consumed-twice-%d" % i, ["variable-consumed-twice"], sg,
-      "a file variable used by two root fields (same or different services) is read by the first consumer only; extractFiles also nulls nested uploads in the client's shared variable tree (queryer/files.go:43-80), so the second consumer gets an empty file or null",
-      witness="mutation($f:Upload){ upload(f:$f) upload1(f:$f) }")
+fixed("C19", "C19-upload-read-once", "819c970", 'map {"0":["variables.l.0","variables.l.1"]} and mutation($f:Upload){ upload(f:$f) upload1(f:$f) }: one uploaded file used at two paths, by two root fields or by two services was one reader consumed by the first multipart re-encoding; every later place received an empty file')
+fixed("C19", "C19-shared-variable-tree-mutated", "4208c9a", "mutation($o:UpIn){ uploadIn(in:$o) uploadIn1(in:$o) } with a file at variables.o.f: extractFiles nulled nested uploads inside the variable values shared with the request to the other service (second consumer got null); built at the same time the process died with 'concurrent map iteration and map write' at queryer/files.go:63")
 
 # ----------------------------------------------------------------------------- C15
 known("C15", "C15-arg-defaults-dropped", ["src:arg-default"], r"^(reconstruction MISSING arg default|an operation is valid against the source but not against the reconstruction \(or vice versa\))$",
